@@ -476,6 +476,9 @@ func modelPreludeExact() string {
 	sb.WriteString("(define-fun bnot8 ((a Int)) Int (- 255 (mod a 256)))\n")
 	sb.WriteString("(define-fun shl8 ((a Int) (k Int)) Int (mod (* a (pow2 k)) 256))\n")
 	sb.WriteString("(define-fun shr8 ((a Int) (k Int)) Int (div (mod a 256) (pow2 k)))\n")
+	// abstract byte sequences and object keys (uninterpreted in candidate models; their quantified axioms are dropped)
+	sb.WriteString("(declare-sort BSeq 0)\n(declare-fun bs.lt (BSeq BSeq) Bool)\n(declare-fun bs.len (BSeq) Int)\n(declare-fun bs.pfx (BSeq Int) BSeq)\n(declare-fun bseq ((Array Int Int) Int Int) BSeq)\n(declare-fun bseq.str (Str) BSeq)\n(declare-const bs.empty BSeq)\n")
+	sb.WriteString("(declare-fun okey (Int Int) Int)\n(declare-fun okey.t (Int) Int)\n(declare-fun okey.v (Int) Int)\n(declare-fun intr (Int Int) Int)\n(declare-fun intr.r (Int) Int)\n(declare-fun intr.f (Int) Int)\n")
 	return sb.String()
 }
 
